@@ -851,6 +851,50 @@ def graph_integrity(g) -> str:
     return f"ids {ids} attr {attr} by_type {by_type}"
 
 
+def graph_lookup_problems(g) -> list[str]:
+    """The graph's own lookups and counters against its node list: every node is found by its type and entity id (and is that very
+    node), counters count, the non-removed nodes are the nodes not flagged as removed (in node order), and the per-machine / per-job
+    lists of operation nodes hold exactly the operation nodes of that machine / job."""
+    bad = []
+    NT = type(g.nodes[0].node_type) if g.nodes else None
+    for n in g.nodes:
+        try:
+            if n.node_type == NT.OPERATION:
+                got = g.get_operation_node(n.operation.operation_id)
+            elif n.node_type == NT.MACHINE:
+                got = g.get_machine_node(n.machine_id)
+            elif n.node_type == NT.JOB:
+                got = g.get_job_node(n.job_id)
+            else:
+                continue
+        except Exception as e:  # pylint: disable=broad-except
+            bad.append(f"lookup of node {n.node_id} ({n.node_type.name}) raised {type(e).__name__}")
+            continue
+        if got is not n:
+            bad.append(f"lookup of node {n.node_id} ({n.node_type.name}) returned node {getattr(got, 'node_id', got)}")
+    if NT is not None:
+        if g.num_job_nodes != sum(1 for n in g.nodes if n.node_type == NT.JOB):
+            bad.append(f"num_job_nodes = {g.num_job_nodes}")
+        if g.num_edges != len(list(g.graph.edges())):
+            bad.append(f"num_edges = {g.num_edges}, the graph has {len(list(g.graph.edges()))}")
+    want = [n.node_id for n in g.nodes if not g.removed_nodes[n.node_id]]
+    if [n.node_id for n in g.non_removed_nodes()] != want:
+        bad.append(f"non_removed_nodes() = {[n.node_id for n in g.non_removed_nodes()]}, not removed: {want}")
+    if any(g.is_removed(n) != g.removed_nodes[n.node_id] or g.is_removed(n.node_id) != g.removed_nodes[n.node_id] for n in g.nodes):
+        bad.append("is_removed disagrees with removed_nodes")
+    if NT is not None:
+        ops = [n for n in g.nodes if n.node_type == NT.OPERATION]
+        for m, row in enumerate(g.nodes_by_machine):
+            w = sorted(n.node_id for n in ops if m in n.operation.machines)
+            if sorted(n.node_id for n in row) != w:
+                bad.append(f"nodes_by_machine[{m}] = {sorted(n.node_id for n in row)}, operations on that machine: {w}")
+        for j, row in enumerate(g.nodes_by_job):
+            w = [n.node_id for n in ops if n.operation.job_id == j]
+            if [n.node_id for n in row] != w:
+                bad.append(f"nodes_by_job[{j}] = {[n.node_id for n in row]}, operations of that job: {w}")
+    return bad
+
+
 class ImplGraph(ImplFeat):
     # graphs built earlier in this process with what they looked like when they were built: building another graph
     # must not change them (shared mutable state between graphs)
